@@ -134,6 +134,8 @@ class LexModel:
         return r
 
     def _run(self, t, rest):
+        if isinstance(t, tuple) and len(t) == 2 and t[0] == "return":
+            return self._run(t[1], rest)        # the arm is the tail of next(): `return x` is the value x
         if M("(None)", t) is not None:
             return {"kind": "none"}
         e = M("(Some ?x)", t)
